@@ -27,6 +27,10 @@ fn paths() -> Vec<Vec<Scalar>> {
     for a in NAMES {
         ps.push(vec![Scalar::new(a)]);
     }
+    // root names no layer defines but that arrays / objects answer as synthetic indices
+    for a in ["size", "first"] {
+        ps.push(vec![Scalar::new(a)]);
+    }
     for a in NAMES {
         for b in ["a", "b", "size"] {
             ps.push(vec![Scalar::new(a), Scalar::new(b)]);
